@@ -37,7 +37,7 @@ var fixtureDeps = []dep{
 	{"~/v1/api", "api"}, {"~/v2/api", "api"}, {"~/1st/log", "log"}, {"~/2nd/log", "log"},
 	{"~/dep/time", "time"}, {"~/yaml.v2", "yaml"}, {"~/Upper/Case", "kase"},
 	{"~/names/s", "s"}, {"~/names/err", "err"}, {"~/names/mock", "mock"}, {"~/kw/type", "kw"},
-	{"~/names/fooMoqParam", "fooMoqParam"}, {"~/names/n", "n"}, {"~/names/s1", "s1"}, {"~/names/s2", "s2"}, {"~/q/one", "one"}, {"~/q/two", "two"},
+	{"~/names/fooMoqParam", "fooMoqParam"}, {"~/names/n", "n"}, {"~/names/s1", "s1"}, {"~/names/s2", "s2"}, {"~/q/tri", "tri"}, {"~/q/one", "one"}, {"~/q/two", "two"},
 }
 
 var stdDeps = []dep{
@@ -233,6 +233,10 @@ type Int int
 type Gb[T any] interface{ Base(T) T }
 
 type Ordered[T any] interface{ Less(T) bool }
+
+type handler = func(int) error
+
+type locAlias = Loc
 `
 
 // Fixture is a materialised fixture module.
@@ -267,8 +271,13 @@ func NewFixture(root string, pkgs []*SrcPkg) *Fixture {
 	writeFile(filepath.Join(root, "go.mod"), "module "+modPath+"\n\ngo 1.24\n")
 	for _, d := range fixtureDeps {
 		rel := d.Key[2:]
+		if d.Key == "~/q/tri" {
+			continue // written below with its own content
+		}
 		writeFile(filepath.Join(root, rel, "p.go"), depBody(d.Name))
 	}
+	// a third package whose interface mentions three same-named packages in ONE parameter type
+	writeFile(filepath.Join(root, "q", "tri", "p.go"), "package tri\n\nimport (\n\taf \""+modPath+"/a/foo\"\n\tbf \""+modPath+"/b/foo\"\n\tdf \""+modPath+"/d/bar\"\n)\n\ntype Tri interface {\n\tTri(f func(af.T, bf.T) df.T) map[af.T]map[bf.T]df.T\n}\n")
 	for _, p := range pkgs {
 		fx.writePkg(p)
 	}
@@ -305,7 +314,7 @@ var (
 func fixtureEnv() []string {
 	envOnce.Do(func() {
 		cmd := exec.Command("go", "env", "GOROOT")
-		cmd.Dir = "/repo"
+		cmd.Dir = repoRoot
 		cmd.Env = append(os.Environ(), "GOFLAGS=-mod=mod", "GOPROXY=off")
 		out, err := cmd.Output()
 		if err != nil {
